@@ -126,6 +126,7 @@ type lockRef struct {
 	path  apath     // param-rooted path of that object in the summarised function's terms (when expressible)
 	hasP  bool
 	class string // "Owner.field" of the mutex
+	shared bool  // acquired with RLock: excludes writers only
 }
 
 type effect struct {
@@ -222,6 +223,12 @@ func isMutexLock(call ssa.CallInstruction) (lock bool, ok bool) {
 	return false, false
 }
 
+// isSharedLock: the call is RWMutex.RLock.
+func isSharedLock(call ssa.CallInstruction) bool {
+	f := calleeObj(call)
+	return f != nil && f.Pkg() != nil && f.Pkg().Path() == "sync" && f.Name() == "RLock"
+}
+
 func lockID(r lockRef) string {
 	return vpath(r.base) + "#" + r.class
 }
@@ -276,6 +283,7 @@ func (e *effEngine) local(fn *ssa.Function) *fnLocal {
 					if r, ok := refOf(t); ok {
 						id := lockID(r)
 						if lk {
+							r.shared = isSharedLock(t)
 							cur.must[id] = r
 							cur.may[id] = r
 						} else {
@@ -832,7 +840,11 @@ func (e *effEngine) summarize(fn *ssa.Function) bool {
 	heldClasses := func(in ssa.Instruction) []string {
 		var out []string
 		for _, r := range st.heldAt[in] {
-			out = append(out, r.class)
+			if r.shared {
+				out = append(out, r.class+"~shared")
+			} else {
+				out = append(out, r.class)
+			}
 		}
 		sort.Strings(out)
 		return out
